@@ -168,3 +168,26 @@ def twin_makers():
 
 TWIN_VALUES = [None, True, False, 0, 1, 2, 3, 7, 50, 101, 2.0, 2.5, "1", "2", "3", "7", "None", "a", "", [2], [1, 1], (2, 0), [], (),
                [7], ["2", "2"]]
+
+
+# ---------------------------------------------------------------------------------------------------------------
+# LARGE / PRECISE parameters (beyond the small grids): sets of 30-100 consecutive ints, ints beyond 2**64 and the float range,
+# floats one ulp apart, sets that share only a boundary element.  Search only (outside the model's small rational grid).
+# ---------------------------------------------------------------------------------------------------------------
+def big_atom_makers():
+    from predicate.standard_predicates import ge_le_p, gt_lt_p
+    from predicate.set_predicates import is_subset_p, is_superset_p
+    mk_ = [lambda: in_p(*range(3, 41)), lambda: not_in_p(*range(1900, 2000)), lambda: in_p(*range(64)), lambda: in_p(*range(40)), lambda: in_p(*range(32)),
+           lambda: not_in_p(*range(40)), lambda: in_p(*range(65)), lambda: in_p(*range(0, 12)), lambda: in_p(*range(10, 25)), lambda: in_p(*range(1024, 1100)),
+           lambda: ge_le_p(0, 2 ** 70), lambda: ge_p(5), lambda: gt_p(1.5), lambda: ge_le_p(0.0, 1e30), lambda: gt_lt_p(-2 ** 70, 0), lambda: le_p(-3),
+           lambda: eq_p(0.1 + 0.2), lambda: eq_p(0.3), lambda: ne_p(0.3), lambda: eq_p(1e16), lambda: eq_p(1e16 + 2.0), lambda: eq_p(10 ** 16 + 1),
+           lambda: eq_p(10 ** 309), lambda: ne_p(10 ** 309), lambda: ne_p(2.0 ** 64), lambda: eq_p(3e9), lambda: eq_p(3000000001), lambda: ge_p(2 ** 64),
+           lambda: lt_p(2 ** 64 + 1), lambda: ge_le_p(2 ** 53 + 1, 1e17)]
+    sets_ = [lambda: is_subset_p(set(range(0, 41))), lambda: is_subset_p(set(range(40, 81))), lambda: is_superset_p(set(range(0, 33))),
+             lambda: is_subset_p(set(range(0, 35)))]
+    return mk_, sets_
+
+
+BIG_VALUES = [3.5, 3, 40, 41, 32, 31, 63, 64, 65, 39, 2000, 1999, 1899, 2 ** 64, 1e19, -(2 ** 64), 0.1 + 0.2, 0.3, 1e16, 1e16 + 2.0, 10 ** 16 + 1, 2.0 ** 64 + 4096,
+              10 ** 309, 2 ** 53, 2 ** 53 + 1, 3e9, 3000000001, 0, 5, -3, 11, 24, 1100, 1024, 1e30, 2 ** 70]
+BIG_SETS = [{40}, set(), {0, 40}, {41}, set(range(0, 41)), set(range(40, 81)), {39, 40}, set(range(0, 33)), set(range(0, 34))]
